@@ -120,6 +120,42 @@ static std::vector<Scenario> scenarios() {
         i.result = [=] { return target->to_string(); };
         i.probe = [=] { std::string s; target->dump(s); if (s != *before) return std::string("apply_patch: target not restored: ") + s.substr(0, 300) + " expected " + before->substr(0, 300); return std::string(); };
         i.destroy = [=] { *doc = json::null(); *target = json::null(); *patch = json::null(); }; return i; }});
+    // every pair of heap-backed storage kinds on the two sides of a copy assignment (long string, byte string, array, object, big number text)
+    S.push_back({"copy-assign-kind-pairs", [](Rng& r) {
+        auto mk = [](Rng& rr, int k) -> json {
+            switch (k) {
+            case 0: return json(std::string(40 + rr.below(60), 's'));
+            case 1: return json(byte_string_arg, std::vector<uint8_t>(40 + rr.below(60), (uint8_t)7));
+            case 2: { json a(json_array_arg); size_t n = 1 + rr.below(4); for (size_t i = 0; i < n; ++i) a.push_back(std::string(40, 'a')); return a; }
+            case 3: { json o(json_object_arg); size_t n = 1 + rr.below(4); for (size_t i = 0; i < n; ++i) o.try_emplace("member name long enough for the heap " + std::to_string(i), std::string(40, 'o')); return o; }
+            case 4: return json(std::string(50, '9'), semantic_tag::bigint);
+            case 5: return json(byte_string_arg, std::vector<uint8_t>(40 + rr.below(60), (uint8_t)9), (uint64_t)rr.below(300));
+            default: return json((int64_t)rr.below(100));
+            } };
+        int ka = (int)r.below(7), kb = (int)r.below(7);
+        auto a = std::make_shared<json>(mk(r, ka)); auto b = std::make_shared<json>(mk(r, kb)); auto src = std::make_shared<std::string>(a->to_string());
+        Instance i; i.op = [=] { *b = *a; }; i.result = [=] { return b->to_string(); };
+        i.probe = [=] { std::string s; b->dump(s); if (a->to_string() != *src) return std::string("source changed"); json c(*b); *b = json(std::string(60, 'r')); return std::string(); };
+        i.destroy = [=] { *a = json::null(); *b = json::null(); }; return i; }});
+    // patches with move/copy operations and long operation sequences (every length 1..18: undo log growth at every size)
+    S.push_back({"apply-patch-moves", [](Rng& r) {
+        auto doc = std::make_shared<json>(json_object_arg); std::vector<std::string> keys; size_t nk = 3 + r.below(4);
+        for (size_t k = 0; k < nk; ++k) { std::string key = "key_" + std::to_string(k) + std::string(r.below(12), 'k'); keys.push_back(key); doc->try_emplace(key, r.coin() ? json(std::string(30 + r.below(30), 'v')) : json((int64_t)k)); }
+        auto patch = std::make_shared<json>(json_array_arg); size_t nops = 1 + r.below(18); int fresh = 0;
+        for (size_t n = 0; n < nops; ++n) {
+            json op(json_object_arg); size_t kind = r.below(5); if (keys.size() < 2) kind = 2;
+            if (kind == 0) { op["op"] = "replace"; op["path"] = "/" + r.pick(keys); op["value"] = std::string(30 + r.below(30), 'r'); }
+            else if (kind == 1) { size_t j = r.below(keys.size()); std::string to = "moved_" + std::to_string(fresh++) + std::string(r.below(12), 'm'); op["op"] = "move"; op["from"] = "/" + keys[j]; op["path"] = "/" + to; keys[j] = to; }
+            else if (kind == 2) { std::string to = "added_" + std::to_string(fresh++); op["op"] = "add"; op["path"] = "/" + to; op["value"] = std::string(30, 'a'); keys.push_back(to); }
+            else if (kind == 3) { size_t j = r.below(keys.size()); op["op"] = "remove"; op["path"] = "/" + keys[j]; keys.erase(keys.begin() + (long)j); }
+            else { std::string to = "copied_" + std::to_string(fresh++); op["op"] = "copy"; op["from"] = "/" + r.pick(keys); op["path"] = "/" + to; keys.push_back(to); }
+            patch->push_back(std::move(op));
+        }
+        auto target = std::make_shared<json>(*doc); auto before = std::make_shared<std::string>(doc->to_string());
+        Instance i; i.op = [=] { std::error_code ec; jsonpatch::apply_patch(*target, *patch, ec); if (ec) throw std::runtime_error("patch failed: " + ec.message()); };
+        i.result = [=] { return target->to_string(); };
+        i.probe = [=] { std::string s; target->dump(s); if (s != *before) return std::string("apply_patch: target not restored: ") + s.substr(0, 300) + " expected " + before->substr(0, 300) + " patch " + patch->to_string().substr(0, 400); return std::string(); };
+        i.destroy = [=] { *doc = json::null(); *target = json::null(); *patch = json::null(); }; return i; }});
     S.push_back({"from-diff", [](Rng& r) { auto a = std::make_shared<json>(gen_obj(r)); auto b = std::make_shared<json>(gen_obj(r)); auto out = std::make_shared<json>(); bool mp = r.coin();
         Instance i; i.strong = true; i.op = [=] { json d = mp ? mergepatch::from_diff(*a, *b) : jsonpatch::from_diff(*a, *b); *out = std::move(d); }; i.result = [=] { return out->to_string(); }; i.probe = [] { return std::string(); }; i.destroy = [=] { *a = json::null(); *b = json::null(); *out = json::null(); }; return i; }});
     S.push_back({"json-query", [](Rng& r) { auto doc = std::make_shared<json>(json::parse(R"({"store":{"book":[{"category":"reference","author":"Nigel Rees","title":"Sayings of the Century","price":8.95},{"category":"fiction","author":"Evelyn Waugh","title":"Sword of Honour","price":12.99},{"category":"fiction","author":"J. R. R. Tolkien","title":"The Lord of the Rings","isbn":"0-395-19395-8","price":22.99}],"bicycle":{"color":"red","price":19.95}}})"));
